@@ -309,3 +309,98 @@ def receiver_names(cx, fn, method):
         for n in names(hit.term(c.func.value, px)):
           out.setdefault(n, c)
   return out
+
+
+class ValueNumbers(object):
+  """Value numbering of one function over reaching definitions: ``term(expr, at)`` evaluates an expression as seen at
+  CFG node ``at`` to a sa/symeval.py term in which every local stands for the term of the definition that reaches
+  ``at`` (when exactly one does, or all reaching definitions have the same term).  Two expressions with equal terms
+  denote the same value, which replaces comparisons of variable *names* and survives renamed / duplicated temporaries."""
+
+  def __init__(self, cx, fn):
+    from .symeval import SymEval
+    self.cx = cx
+    self.fn = fn
+    self.g = cx.cfg(fn)
+    self.se = SymEval(cx)
+    self._memo = {}
+    self._busy = set()
+
+  def _def_term(self, name, d):
+    """term bound to ``name`` by definition node d"""
+    key = (name, d.id)
+    if key in self._memo:
+      return self._memo[key]
+    if key in self._busy:
+      return ('param', name)
+    self._busy.add(key)
+    try:
+      out = ('param', name)
+      v = value_assigned(d, name)
+      if isinstance(v, ast.AST):
+        out = self.term(v, d)
+      elif isinstance(v, tuple) and v[0] in ('unpack', 'elem'):
+        base = self.term(v[1], d)
+        if v[0] == 'elem':
+          base = ('elem', base)
+        for i in (v[2] or ()):
+          if base[0] in ('tuple', 'list') and i < len(base) - 1:
+            base = base[1 + i]
+          else:
+            base = ('field', base, i)
+        out = base
+      elif d.kind == 'with' and d.owner is not None:
+        for it in d.owner.items:
+          if isinstance(it.optional_vars, ast.Name) and it.optional_vars.id == name:
+            out = ('call', 'enter', self.term(it.context_expr, d))
+    finally:
+      self._busy.discard(key)
+    self._memo[key] = out
+    return out
+
+  def name_term(self, name, at):
+    if at is None:
+      return ('param', name)
+    k2 = ('@', name, at.id)
+    if k2 in self._memo:
+      return self._memo[k2]
+    rds = reaching_defs(self.g, name, at)
+    out = ('param', name)
+    if rds and self.g.entry not in rds:
+      ts = {self._def_term(name, d) for d in rds}
+      if len(ts) == 1:
+        out = ts.pop()
+    self._memo[k2] = out
+    return out
+
+  def term(self, expr, at=None):
+    """term of ``expr`` evaluated at CFG node ``at`` (a Node, or an ast node contained in one)."""
+    if at is not None and not hasattr(at, 'succ'):
+      nodes = self.g.node_containing(at) or self.g.nodes_of(at)
+      at = nodes[0] if nodes else None
+    from .symeval import canon
+    return canon(self.se.ev(expr, _LazyEnv(self, at), self.fn))
+
+
+class _LazyEnv(dict):
+  def __init__(self, vn, at):
+    dict.__init__(self)
+    self.vn = vn
+    self.at = at
+
+  def _local(self, k):
+    return bool(defs_of(self.vn.g, k))
+
+  def get(self, k, default=None):
+    if not self._local(k):
+      return default if default is not None else ('param', k)
+    return self.vn.name_term(k, self.at)
+
+  def __contains__(self, k):
+    return self._local(k)
+
+  def __getitem__(self, k):
+    return self.vn.name_term(k, self.at)
+
+  def copy(self):
+    return self
